@@ -275,7 +275,12 @@ func (i *IPC) ProxyAnswers(arg messages.Arg, response *[]byte) error {
 	*response = b
 
 	if success {
-		snowflake.answerChannel <- answer
+		// The channel has capacity 1; never block the proxy's request when the
+		// client is gone or has already been answered.
+		select {
+		case snowflake.answerChannel <- answer:
+		default:
+		}
 	}
 
 	return nil
